@@ -283,6 +283,14 @@ theorem C11_foreach_writeback (env : Env) (cfg : FECfg) (body : Tree) (w : World
       r.st.circ = ⟨s.circ.radixes, s.circ.cycles.mapIdx (fun k cy => cy.map (f k))⟩ :=
   forEach_writeback env cfg body w s r hinv hrun hok
 
+/-- **Every other timeline is unchanged.**  For a qudit `q` that none of the written-back blocks
+touches, the sequence of operations on `q` after the pass is exactly the sequence before. -/
+theorem C11_foreach_other_timelines (c : Circ) (tg : List Tgt) (f : Nat → Op → Op)
+    (hrel : ∀ k x, RelT tg k x (f k x)) (hon : ∀ k x q, (f k x).on q = x.on q)
+    (q : Nat) (hq : ∀ t ∈ tg, q ∉ t.2.1.loc) :
+    (⟨c.radixes, c.cycles.mapIdx (fun k cy => cy.map (f k))⟩ : Circ).timeline q = c.timeline q :=
+  timeline_of_subst c tg f hrel hon q hq
+
 /-- … and which blocks are written back: exactly those whose result the replace filter accepted. -/
 theorem C11_foreach_accepted (env : Env) (cfg : FECfg) (s0 : St) (jobs : List BlockJob) (rs : List Res)
     (w1 : World) (hinv : s0.circ.Inv)
